@@ -95,7 +95,7 @@ def main():
                 aA = exact.avg_value(p, avg[(q[0], q[1])], beta)
                 aB = exact.avg_value(p, avg[(q[2], q[3])], beta)
                 disc = aA * aB
-                for key in ("plain", "sub_auto", "sub_ea", "sub_val"):
+                for key in ("plain", "sub_auto", "sub_ea", "sub_val", "sub_ea_prepared"):
                     sub = key != "plain"
                     for (n, v) in o[key]["n"]:
                         want, tot, npairs, dist = exact.sus_value(p, terms, beta, n)
@@ -127,7 +127,7 @@ def main():
                     break
                 # relational: subtraction changes W = 0 only
                 pl = {n: exact.cplx(v) for (n, v) in o["plain"]["n"]}
-                for key in ("sub_auto", "sub_ea", "sub_val"):
+                for key in ("sub_auto", "sub_ea", "sub_val", "sub_ea_prepared"):
                     for (n, v) in o[key]["n"]:
                         diff = pl[n] - exact.cplx(v)
                         exp = mp.mpf(beta) * exact.cplx(o["aveA"]) * exact.cplx(o["aveB"]) if n == 0 else 0
@@ -140,7 +140,7 @@ def main():
             if ok:
                 c.traces += 1
     c.sample({"model": {k: ms[1][k] for k in ("M", "eps", "U", "rot", "bog", "ph")}, "quads": ms[1]["sus"][:4], "betas": betas, "n": NS})
-    c.rule = "exact family: %d models x %d betas x ~10 operator pairs (density-density, spin-flip, random) x 5 bosonic frequencies + 4 times x 4 subtraction modes; non-trivial = distinct (model, quadruple) with Lehmann terms" % (len(ms), len(betas))
+    c.rule = "exact family: %d models x %d betas x ~10 operator pairs (density-density, spin-flip, random) x 5 bosonic frequencies + 4 times x 5 subtraction modes (incl. averages prepared by the caller and handed over twice); non-trivial = distinct (model, quadruple) with Lehmann terms" % (len(ms), len(betas))
     c.trusted = ["TLC", "tools/exact.py comparator"]
     c.assumptions = ["exact family only", "allowed deviation: 1e-9 relative + dropped-term bound over pairs of distinct levels (1e-8 each)"]
     # the container every part accumulates its Lehmann terms in (spec/TermList.tla): like terms are merged, nothing is lost except by the
